@@ -1,11 +1,11 @@
 (** C07  No input can crash the interpreter.
     Property theorems only. Every Rust site that can panic is an explicit [Panic site] outcome of
     the model; these theorems show the sites that an earlier check makes unreachable, and the
-    totality of the lexer. What is not proved here (reader/transformer/evaluator totality as a
-    whole: no Panic for every well-formed AST) rests on the correspondence of the check. *)
+    totality of the lexer and of the reader. What is not proved here (transformer/evaluator totality as
+    a whole: no Panic for every well-formed AST) rests on the correspondence of the check. *)
 From Coq Require Import List.
-From RV Require Import Model.Common Model.Datum Model.Lexer Model.Value Model.Builtins Model.Eval
-  Proofs.LexProofs Proofs.NoPanicProofs Proofs.EvalProofs.
+From RV Require Import Model.Common Model.Datum Model.Lexer Model.Reader Model.Value Model.Builtins Model.Eval
+  Proofs.LexProofs Proofs.ReaderProofs Proofs.NoPanicProofs Proofs.EvalProofs.
 Import ListNotations.
 
 (** the lexer: every text yields a token, the end of input or a reported error *)
@@ -30,3 +30,9 @@ Theorem C07_builtins_cannot_miss_an_argument : forall name args st fixed variadi
   arity_ok (length args) fixed variadic = true ->
   fst (builtin_call name args st) <> Panic PBuiltinArg.
 Proof. exact builtin_no_arg_panic. Qed.
+
+(** the reader: for every input text no panic and no exhaustion of the model's fuel, form after form *)
+Theorem C07_reader_total : forall s, fine (read_next s).
+Proof. exact read_next_total. Qed.
+Theorem C07_read_text_total : forall text, fine (read_text text).
+Proof. exact read_text_total. Qed.
